@@ -75,6 +75,23 @@ CLAIMS = {
             "opposite, 2-torsion, missing shared inverse) is checked path by path; the nine curve literals are prime-field, non-singular, G on curve, n prime, n*G = inf, Hasse-consistent.",
             "Trusted: gmpy2.invert contract, congruence of `% mod`. Not decided: the scalar-multiplication loops, the comb in BatchMultiplyG, Montgomery's array invariants in BatchInverse (its final self-check is runtime).",
             "DESIGN.md section 3 C11"),
+    "C02": ("other", "dominance of verifying comparisons over release sites on identical symbolic values (symbolic path walk), index-codec agreement, untrusted-source sanitisation (taint) analysis",
+            "Every non-None store into BatchDL's result is dominated by Multiply(g, dl) == points[i] on x and y (resp. negated y for -dl); relation strings of "
+            "BatchDLOfDifferences are formatted from exactly the (q, dl) for which Subtract(p, q) == Multiply(g, dl) was tested, the mirrored entry at j - len(other) "
+            "with the negated list aligned by exactly one unconditional append per outer iteration; ExtendedBatchDL's writer index i + num_points*j and reader pair "
+            "(k % num_points, k // num_points) agree; every DISCRETE_LOG sink records V[i] on artifact i of the very list whose images were searched with the curve "
+            "the list was filtered by; signature checks mark weak only under `i in _IssuerDLogs(...)`, and _IssuerDLogs stores guesses[i] only if "
+            "BatchMultiplyG(guesses)[i] is an issuer point; the U2F guess is released only after x1 == x2.",
+            "Trusted: Multiply/BatchMultiplyG compute the group law (formulas C11, loops undecided). Hypothesis: recorded points are valid points of order n.",
+            "DESIGN.md section 3 C02"),
+    "C10": ("other", "symbolic coverage inequalities (floor/ceiling lemmas over extracted step and size expressions), cache descriptor/content agreement, symbolic folding of the multiplier families",
+            "Boundary arithmetic of the baby-step/giant-step search is proved for all table sizes T >= 1 and bounds n: candidates are {j*t + i, j*t - i}; adjacency "
+            "t <= 2T - 1; reach (G-1)*t + T - 1 >= n - 1 with the extracted G = 2 + n // t by the floor lemma (a residual that is not provably >= 0 is reported); "
+            "PointTable covers [0, N) (m*r >= N by the ceiling lemma, index i*m + j, both sequences of the right length); PointSequence yields 0..k-1 multiples; "
+            "the cached table is rebuilt only when a larger one is requested and always matches its stored size; multiplier families 2^(8j) and repeated 32-bit words are complete, "
+            "bound 2^32; only identical points are skipped and the early return only fires without pairs.",
+            "Trusted: the two floor-division lemmas, int(math.sqrt) for these magnitudes, group-law correctness of the batched additions (C11). Assumes T >= 1.",
+            "DESIGN.md section 3 C10"),
     "C16": ("other", "typestate / who-may-write analysis over the AST + symbolic path walk of all 24 Check bodies",
             "Decides, for every path of every Check body in the package, that each loop iteration records exactly one "
             "result entry on that iteration's artifact with an entry created in the same iteration, that the positive flag, "
